@@ -259,7 +259,7 @@ def run(ck, ctx):
     ck.ob("C18.2", "uninit-literal", mh == "[eq(arg1, str%r) in [0,0]] => Option::map(hex2u16(arg1), fn:Some) ; [eq(arg1, str%r) in [1,1]] => Option::Some(Option::None())" % (UNINIT, UNINIT),
           "maybe_hex2u16 maps exactly the writer's uninit literal to None and everything else through hex2u16: %s" % mh, dw)
     hx = nf.deep(F, ENC + "hex2u16")
-    ck.ob("C18.2", "hex4", hx == "Option::None() ; [len(arg1) in [4,4]] => Result::ok(from_str_radix(arg1, 16))", "hex2u16 accepts exactly 4 characters in radix 16: %s" % hx, dw)
+    ck.ob("C18.2", "hex4", hx == "Option::None() ; [len(arg1) in [4,4]] => Result::ok(u16_from_str_radix(arg1, 16))", "hex2u16 accepts exactly 4 characters in radix 16: %s" % hx, dw)
     ph = nf.deep(F, ENC + "parse_header")
     ck.ob("C18.2", "header-split", ph == "then_some(Iterator::eq(Iterator::map(splitn(arg1, len(arg2), str%r), fn:trim), Iterator::copied(iter(arg2))), tuple())" % DIV,
           "parse_header splits at the writer's divider into exactly len(columns) parts: %s" % ph, dw)
